@@ -219,13 +219,9 @@ impl Ctx<'_> {
                 self.stats.exclude_checks.fetch_add(1, Ordering::Relaxed);
                 if !excl_sel.matches_dir(&Path::from(d.as_str())) {
                     self.stats.pruned_dirs.fetch_add(1, Ordering::Relaxed);
-                    // Undocumented, hence "don't care": whether excluding a directory's own path
-                    // also excludes what lies below it.
-                    let mut own = ancestors(d);
-                    own.push(d.clone());
-                    if own.iter().any(|a| globref::matches(&ast, a, false)) {
-                        continue;
-                    }
+                    // --exclude is defined on the paths of files ("paths matched fully"); a directory whose own path
+                    // matches may be skipped only if that loses no file that is not excluded itself (the pruning
+                    // clause of C09/C16), so there is no don't-care here.
                     let prefix = format!("{d}/");
                     for (p, want) in self.paths.iter().zip(expected.iter()) {
                         if p.starts_with(&prefix) && !*want {
